@@ -22,7 +22,7 @@ ReqName(t) ==
     [] t.pc \in {"headS2", "getS"} -> <<"manifest_get", SrcRef(t)>>
     [] t.pc = "refs"   -> <<"referrers", t.node>>
     [] t.pc = "refs2"  -> <<"manifest_get", FbTag(t.node)>>
-    [] t.pc = "dtags"  -> <<"tag_list", "">>
+    [] t.pc = "dtagsR" -> <<"tag_list", "">>
     [] t.pc = "put"    -> <<"manifest_put", TgtRef(t)>>
     [] t.pc = "fbget"  -> <<"manifest_get", FbTag(SubjectOf(t.node))>>
     [] t.pc = "fbput"  -> <<"manifest_put", FbTag(SubjectOf(t.node))>>
